@@ -44,6 +44,20 @@ def _indexed_generator(database, first):
     return IndexedGenerator(database=database)
 
 
+def _salted(gen, salt):
+    """The shipped generator `gen` called on fold_in(key, salt): the thorough tier splits its episodes over several
+    configurations (trace files stay small) and the recorder gives episode `ep` the same key in each of them."""
+    import jax
+
+    from jumanji.environments.logic.sudoku.generator import Generator
+
+    class SaltedGenerator(Generator):
+        def __call__(self, key):
+            return gen(jax.random.fold_in(key, salt))
+
+    return SaltedGenerator()
+
+
 # ---- a small exact solver (bitmask backtracking, most-constrained cell first): only steers play -------
 def _solve(board):
     b = np.asarray(board, dtype=np.int64).copy()
@@ -131,15 +145,17 @@ class Adapter(EnvAdapter):
                 c("mixed_resets", "mixed", 250, max_steps=0),
                 c("veasy_resets", "very-easy", 250, max_steps=0),
             ]
-        out = [
-            c("mixed", "mixed", 40, probe_every=4, probe_cap=96, policies=play),
-            c("mixed_b", "mixed", 40, probe_every=5, probe_cap=128, policies=play[::-1]),
-            c("veasy", "very-easy", 80, probe_every=2, probe_cap=96, policies=play),
-            c("veasy_b", "very-easy", 80, probe_every=3, probe_cap=128, policies=play[::-1]),
-            c("dummy", "dummy", 12, probe_every=6, probe_cap=96, policies=play),
-            c("mixed_resets", "mixed", 2000, max_steps=0),
-            c("veasy_resets", "very-easy", 1000, max_steps=0),
-        ]
+        out = [c("mixed", "mixed", 12, probe_every=4, probe_cap=96, policies=play),
+               c("veasy", "very-easy", 20, probe_every=2, probe_cap=96, policies=play),
+               c("dummy", "dummy", 6, probe_every=6, probe_cap=96, policies=play),
+               c("dummy_b", "dummy", 6, probe_every=5, probe_cap=128, policies=play[::-1]),
+               c("mixed_resets", "mixed", 2000, max_steps=0),
+               c("veasy_resets", "very-easy", 1000, max_steps=0)]
+        # more keys: the shipped DatabaseGenerator on salted keys (other puzzles than the unsalted configurations)
+        for k in (1, 2, 3):
+            pol = play[k:] + play[:k]
+            out.append(c(f"mixed_s{k}", "mixed", 12, probe_every=4 + k % 2, probe_cap=96 if k < 3 else 128, policies=pol, salt=k))
+            out.append(c(f"veasy_s{k}", "very-easy", 20, probe_every=2 + k % 2, probe_cap=96 if k < 3 else 128, policies=pol, salt=k))
         # every puzzle of both databases, one per episode (reset only)
         for k in range(10):
             out.append(c(f"mixed_sweep{k}", "mixed-indexed", 1000, max_steps=0, first=1000 * k))
@@ -149,9 +165,11 @@ class Adapter(EnvAdapter):
     def make(self, cfg):
         import jumanji
         from jumanji.environments import Sudoku
-        from jumanji.environments.logic.sudoku.generator import DummyGenerator
+        from jumanji.environments.logic.sudoku.generator import DatabaseGenerator, DummyGenerator
 
         gen = cfg["ctor"]["generator"]
+        if cfg.get("salt"):
+            return Sudoku(generator=_salted(DatabaseGenerator(database=_database(gen)), cfg["salt"]))
         if gen == "mixed":
             return Sudoku()  # documented default: DatabaseGenerator over the `mixed` database
         if gen == "very-easy":
